@@ -196,6 +196,61 @@ func (x *miscLimitsExt) effective(id uint32) (cs, cr, sr, ss int) {
 	return
 }
 
+// bigProbes reports which of the "which limit sources are set" combinations a
+// message next to the documented 4 MiB default met (coverage only).
+func (x *miscLimitsExt) bigProbes(w *run, id uint32, cmsgs, smsgs []int) {
+	e := w.e
+	c := &x.cfg
+	near := func(n int) bool { return n >= miscDefRecv-(1<<17) && n <= miscDefRecv+(1<<17) }
+	var scResp, scReq *int
+	if c.SCMode != 0 {
+		scReq, scResp = c.SCReq, c.SCResp
+	}
+	optS, optR := c.DialSend, c.DialRecv
+	if cl := x.call(id); cl != nil {
+		if cl.Send != nil {
+			optS = cl.Send
+		}
+		if cl.Recv != nil {
+			optR = cl.Recv
+		}
+	}
+	combo := func(sc, opt *int) string {
+		switch {
+		case sc != nil && opt != nil:
+			return "both"
+		case sc != nil:
+			return "sc_only"
+		case opt != nil:
+			return "option_only"
+		}
+		return "neither"
+	}
+	for _, n := range smsgs {
+		if !near(n) {
+			continue
+		}
+		e.Probe("c21_big_response_client_recv_" + combo(scResp, optR))
+		if eff := miscEff(scResp, optR, miscDefRecv); n > miscDefRecv && n <= eff {
+			e.Probe("c21_big_response_above_default_within_" + combo(scResp, optR))
+		}
+	}
+	for _, n := range cmsgs {
+		if !near(n) {
+			continue
+		}
+		e.Probe("c21_big_request_client_send_" + combo(scReq, optS))
+		if c.SrvRecv != nil {
+			e.Probe("c21_big_request_server_recv_option")
+			if n > miscDefRecv && n <= *c.SrvRecv {
+				e.Probe("c21_big_request_above_default_within_server_option")
+			}
+		} else {
+			e.Probe("c21_big_request_server_recv_default")
+		}
+	}
+}
+
 // AtQuiescence: the C21 oracle. It assumes the generator's script shape:
 // client sends its messages, half-closes and drains; the handler reads
 // everything, then sends its messages and returns; no faults, no cancellation,
@@ -228,6 +283,7 @@ func (x *miscLimitsExt) AtQuiescence(w *run) {
 				smsgs = append(smsgs, op.N)
 			}
 		}
+		x.bigProbes(w, id, cmsgs, smsgs)
 		// ---- wire: nothing above the sender's limit is ever transmitted ----
 		for _, ws := range x.sh.wire.streamsOf(id) {
 			for i, m := range ws.C.Msgs {
@@ -340,34 +396,20 @@ func miscGenC21(seed uint64, tier string) *Scenario {
 	if r.Chance(1, 3) {
 		focus = r.Range(1, 40)
 	}
-	huge := r.Chance(1, 40) // exercise the documented 4 MiB default
-	if huge {
-		focus = miscDefRecv
-		// ideal network: 4 MiB through tiny segments would cost seconds
-		s.Net.SegMax, s.Net.LatencyNs, s.Net.StallPct, s.Net.InflightCap, s.Net.ReadMax = 0, 0, 0, 0, 0
-		s.Server.StreamWindow, s.Server.ConnWindow, s.Client.StreamWindow, s.Client.ConnWindow = 1<<20, 4<<20, 1<<20, 4<<20
-	} else if s.Net.SegMax > 0 && s.Net.SegMax < 100 && focus > 20000 {
+	if r.Chance(1, 25) {
+		// messages and limits around the documented 4 MiB receive default
+		return miscGenC21Big(r, s)
+	}
+	if s.Net.SegMax > 0 && s.Net.SegMax < 100 && focus > 20000 {
 		focus = r.Range(1, 20000)
 	}
 	small := r.LogUniform(1, 3000)
 	enc := core.Pick(r, "", "", "simxor", "simpat", "simxor2")
-	if huge && r.Chance(3, 4) {
-		enc = "simpat" // 4 MiB decoded, 16 bytes on the wire: cheap to simulate
-	}
 	overhead := 0
 	if enc == "simxor" || enc == "simxor2" {
 		overhead = miscXorOverhead
 	}
 	lim := func() *int {
-		if huge {
-			switch r.Intn(6) {
-			case 0:
-				return miscIntP(focus + r.Range(-1, 1))
-			case 1:
-				return miscIntP(focus * 2)
-			}
-			return nil
-		}
 		switch r.Intn(9) {
 		case 0, 1, 2:
 			return nil
@@ -413,9 +455,6 @@ func miscGenC21(seed uint64, tier string) *Scenario {
 		default:
 			n = r.LogUniform(1, focus)
 		}
-		if huge && r.Chance(1, 2) {
-			n = r.LogUniform(1, 5000)
-		}
 		if n < 1 {
 			n = 1
 			if enc == "" && r.Chance(1, 2) {
@@ -425,20 +464,11 @@ func miscGenC21(seed uint64, tier string) *Scenario {
 		return n
 	}
 	nr := r.Range(1, 5)
-	if huge {
-		nr = r.Range(1, 2)
-	}
 	var calls []miscCompCall
 	for i := 0; i < nr; i++ {
 		rpc := RPC{ID: uint32(i + 1), StartNs: int64(r.Intn(2)) * int64(r.Intn(300000))}
 		var srv []Op
 		nc, ns := r.Intn(4), r.Intn(4)
-		if huge {
-			nc, ns = r.Intn(2), r.Intn(2)
-			if nc+ns == 0 {
-				ns = 1
-			}
-		}
 		for k := 0; k < nc; k++ {
 			rpc.Client = append(rpc.Client, Op{Op: "send", N: size()})
 		}
@@ -471,6 +501,144 @@ func miscGenC21(seed uint64, tier string) *Scenario {
 	s.Ext = map[string]json.RawMessage{"limits": ExtJSON(&c)}
 	if enc != "" {
 		s.Ext["compress"] = ExtJSON(&miscCompressCfg{Advertise: true, Calls: calls})
+	}
+	miscTameNet(s)
+	return s
+}
+
+// miscGenC21Big: one RPC with one message next to the documented 4 MiB receive
+// default, with every combination of "which limit sources are set" (service
+// config, dial/call option, both, neither) in the direction under test, limits
+// on either side of the default. Directions with a reachable default: the
+// client's receive limit (responses) and the server's receive limit (requests;
+// the client's send limits, whose default MaxInt32 is out of reach, are then
+// placed around the same size). Big messages are expensive to simulate: ideal
+// network, a single RPC, one big message.
+func miscGenC21Big(r *core.Rand, s *Scenario) *Scenario {
+	const D = miscDefRecv
+	s.Net.SegMax, s.Net.SegMin, s.Net.LatencyNs, s.Net.StallPct, s.Net.InflightCap, s.Net.ReadMax = 0, 0, 0, 0, 0, 0
+	s.Server.StreamWindow, s.Server.ConnWindow, s.Client.StreamWindow, s.Client.ConnWindow = 1<<20, 4<<20, 1<<20, 4<<20
+	// simpat: 4 MiB decoded, 16 bytes on the wire; identity moves every byte
+	// through both transports and four wire taps (about a second of wall time)
+	enc := core.Pick(r, "", "simpat", "simpat", "simpat")
+	near := func() int {
+		d := core.Pick(r, 1, 1, 2, 1024, 65536, r.Range(1, 65536))
+		if r.Chance(1, 4) {
+			return D - d
+		}
+		return D + d
+	}
+	var c miscLimitsCfg
+	// the sources of the limit under test
+	which := r.Intn(4) // bit 0: service config, bit 1: option
+	var sc, opt *int
+	if which&1 != 0 {
+		sc = miscIntP(near())
+	}
+	if which&2 != 0 {
+		opt = miscIntP(near())
+		if sc != nil && r.Chance(1, 3) {
+			*opt = *sc + core.Pick(r, -1, 0, 1)
+		}
+	}
+	c.SCMode = r.Intn(4)
+	if sc != nil && c.SCMode == 0 {
+		c.SCMode = r.Range(1, 3)
+	}
+	c.Decoy = c.SCMode != 0 && r.Chance(1, 2)
+	rpc := RPC{ID: 1}
+	var call miscCallLim
+	call.ID = rpc.ID
+	// an option reaches the RPC as dial-level default, per call, or per call
+	// overriding a dial-level decoy
+	place := func(v *int, dial, percall **int) {
+		if v == nil {
+			return
+		}
+		switch r.Intn(3) {
+		case 0:
+			*dial = v
+		case 1:
+			*percall = v
+		default:
+			*dial, *percall = miscIntP(core.Pick(r, 1, 100, D, 2*D, *v+1, max(*v-1, 0))), v
+		}
+	}
+	eff := 0 // the effective limit the big message is placed around
+	reqDir := r.Chance(1, 3)
+	if reqDir {
+		// request direction: server receive limit (option or default) and client
+		// send limit (service config / option, default out of reach)
+		if r.Chance(1, 2) {
+			c.SrvRecv = miscIntP(near())
+		}
+		c.SCReq = sc
+		place(opt, &c.DialSend, &call.Send)
+		srv := D
+		if c.SrvRecv != nil {
+			srv = *c.SrvRecv
+		}
+		eff = min(srv, miscEff(sc, opt, miscDefSend))
+		if r.Chance(1, 4) {
+			eff = srv
+		}
+		if c.SCMode != 0 && r.Chance(1, 3) {
+			c.SCResp = miscIntP(core.Pick(r, 0, 50, 5000, D, near()))
+		}
+	} else {
+		// response direction: client receive limit
+		c.SCResp = sc
+		place(opt, &c.DialRecv, &call.Recv)
+		eff = miscEff(sc, opt, D)
+		if r.Chance(1, 6) {
+			c.SrvSend = miscIntP(near())
+		}
+		if c.SCMode != 0 && r.Chance(1, 3) {
+			c.SCReq = miscIntP(core.Pick(r, 0, 50, 5000, D, near()))
+		}
+	}
+	if call.Recv != nil || call.Send != nil {
+		c.Calls = append(c.Calls, call)
+	}
+	cands := []int{eff - 1, eff, eff, eff + 1, D - 1, D, D + 1}
+	if sc != nil {
+		cands = append(cands, *sc, *sc+1)
+	}
+	if opt != nil {
+		cands = append(cands, *opt, *opt+1)
+	}
+	big := cands[r.Intn(len(cands))]
+	if big < 1 {
+		big = 1
+	}
+	small := func() int { return core.Pick(r, 1, 20, 3000) }
+	var srv []Op
+	if reqDir {
+		if r.Chance(1, 4) {
+			rpc.Client = append(rpc.Client, Op{Op: "send", N: small()})
+		}
+		rpc.Client = append(rpc.Client, Op{Op: "send", N: big})
+	} else if r.Chance(1, 2) {
+		rpc.Client = append(rpc.Client, Op{Op: "send", N: small()})
+	}
+	rpc.Client = append(rpc.Client, Op{Op: "close_send"}, Op{Op: "recv_all"})
+	srv = append(srv, Op{Op: "recv_all"})
+	if !reqDir {
+		if r.Chance(1, 4) {
+			srv = append(srv, Op{Op: "send", N: small()})
+		}
+		srv = append(srv, Op{Op: "send", N: big})
+	} else if r.Chance(1, 2) {
+		srv = append(srv, Op{Op: "send", N: small()})
+	}
+	if r.Chance(1, 8) {
+		srv = append(srv, Op{Op: "return", Code: r.Range(1, 16), Msg: "scripted"})
+	}
+	rpc.Server = [][]Op{srv}
+	s.RPCs = append(s.RPCs, rpc)
+	s.Ext = map[string]json.RawMessage{"limits": ExtJSON(&c)}
+	if enc != "" {
+		s.Ext["compress"] = ExtJSON(&miscCompressCfg{Advertise: true, Calls: []miscCompCall{{ID: rpc.ID, Use: enc}}})
 	}
 	miscTameNet(s)
 	return s
